@@ -44,7 +44,8 @@ def check(ctx):
         def r1(f=f):
             s, ex = summarise(p, f)
             where = fsite(f)
-            names = [q.name for q in f.params]
+            rl = accumulate_roles(p)
+            names = [f.params[i].name for i in rl]
             S, Q, C, V = [sym(n) for n in names]
             S1 = ex.param_value(s, names[0])
             C1 = ex.param_value(s, names[2])
@@ -70,7 +71,7 @@ def check(ctx):
                 ctx.violation('R1.compensated', where, 'the update of sum / compensation is not a '
                               'compensated summation (over the reals the compensation must vanish and the '
                               'sum must be s + v - c)', {'update': detail})
-            for q in f.params[:3]:
+            for q in [f.params[i] for i in rl[:3]]:
                 if not SX.is_mut_ref(q.type):
                     ctx.violation('R2.persistent_cells', where, 'parameter `%s` is not a non-const reference: '
                                   'the running sum / compensation does not persist between calls' % q.name)
@@ -90,10 +91,9 @@ def check(ctx):
     for f, e in sites:
         def r2(f=f, e=e):
             w = '%s:%s' % (e['where'], f.name)
-            sc, qc, cc, v = e['args']
+            (sc, qc, cc, v), lvs = accumulate_args(p, e)
             # the three cells must be the accumulator's own storage (lvalues rooted in *this), not
             # copies held in locals: a compensation kept in a local does not survive the call
-            lvs = e.get('ref_lvs') or {}
             for k_, nm in ((0, 'sum'), (1, 'sum of squares'), (2, 'compensation')):
                 lv = lvs.get(k_)
                 if lv is None or lv[1] != ('this', 'this') or not lv[2] or lv[2][0][0] != 'f':
